@@ -1,6 +1,7 @@
 package props
 
 import (
+	"context"
 	"crypto/sha256"
 	"fmt"
 	"os"
@@ -9,6 +10,7 @@ import (
 	"sort"
 	"strings"
 	"testing"
+	"time"
 
 	"pgregory.net/rapid"
 
@@ -25,9 +27,15 @@ func runCLI(args ...string) (int, string) {
 	if cli == "" {
 		cli = verifRoot() + "/build/bbolt"
 	}
-	b, err := exec.Command(cli, args...).CombinedOutput()
+	// the tool needs milliseconds; a run that is still going after 3 minutes is blocked (e.g. waiting for a file lock)
+	ctx, cancel := context.WithTimeout(context.Background(), 180*time.Second)
+	defer cancel()
+	b, err := exec.CommandContext(ctx, cli, args...).CombinedOutput()
 	if err == nil {
 		return 0, string(b)
+	}
+	if ctx.Err() != nil {
+		return -2, "did not finish within 3 minutes (blocked) " + string(b)
 	}
 	if ee, ok := err.(*exec.ExitError); ok {
 		return ee.ExitCode(), string(b)
